@@ -1,0 +1,61 @@
+//go:build verif
+
+// Contracts for the unary iterator (read as text by /verif's govc; comment-only).
+// From the property: consecutive steps in one direction have adjacent, non-overlapping
+// views inside the bounds, for every span.
+
+package unary
+
+//@ pure func (i *Iterator) atStart() bool
+//@ pure func (i *Iterator) atEnd() bool
+//@ inline func (i *Iterator) reset(nextView telem.TimeRange)
+//@ inline func (i *Iterator) seekReset(ts telem.TimeStamp)
+
+//@ spec func wfIter(i *Iterator) bool =
+//@   i.internal != nil && 0 <= i.bounds.Start && i.bounds.Start <= i.bounds.End &&
+//@   i.bounds.Start <= i.view.Start && i.view.Start <= i.view.End && i.view.End <= i.bounds.End
+
+//@ # pieces with I/O behind them: only their frame conditions are used here (they never move the view or the bounds)
+//@ trusted func (i *Iterator) accumulate(ctx context.Context) (ok bool)
+//@   modifies &i.frame, &i.err
+//@ trusted func (i *Iterator) satisfied() (ok bool)
+//@   modifies nothing
+//@ trusted func (i *Iterator) Valid() (ok bool)
+//@   modifies nothing
+//@ trusted func (i *Iterator) autoNext(ctx context.Context) (ok bool)
+//@   ensures i.bounds == old(i.bounds) && i.internal == old(i.internal)
+//@   modifies i, i.internal
+//@ trusted func (i *Iterator) autoPrev(ctx context.Context) (ok bool)
+//@   ensures i.bounds == old(i.bounds) && i.internal == old(i.internal)
+//@   modifies i, i.internal
+
+//@ func (i *Iterator) Next(ctx context.Context, span telem.TimeSpan) (ok bool)
+//@   requires wfIter(i) && span >= 0 && domain.SpecIterWF(i.internal) && domain.SpecIterOK(i.internal) && domain.SpecIterPos(i.internal) < 4611686018427387904
+//@   ensures  i.bounds == old(i.bounds)
+//@   ensures  i.closed ==> i.view == old(i.view)
+//@   # forward step: the new view starts where the old one ended and is clipped to the bounds
+//@   ensures  !i.closed && old(i.view.End) != old(i.bounds.End) ==> i.view.Start == old(i.view.End) && i.view.End == min(clamp.AddInt64(int64(old(i.view.End)), int64(span)), int64(i.bounds.End))
+//@   # at the end of the bounds the view is the empty point at bounds.End
+//@   ensures  !i.closed && old(i.view.End) == old(i.bounds.End) ==> i.view.Start == i.bounds.End && i.view.End == i.bounds.End
+//@   ensures  !i.closed ==> wfIter(i)
+//@   modifies i, i.internal
+//@   loop 0 modifies &i.frame, &i.err, i.internal
+
+//@ func (i *Iterator) Prev(ctx context.Context, span telem.TimeSpan) (ok bool)
+//@   requires wfIter(i) && span >= 0 && domain.SpecIterWF(i.internal) && domain.SpecIterOK(i.internal)
+//@   ensures  i.bounds == old(i.bounds)
+//@   ensures  i.closed ==> i.view == old(i.view)
+//@   # backward step: the new view ends where the old one started and is clipped to the bounds
+//@   ensures  !i.closed && old(i.view.Start) != old(i.bounds.Start) ==> i.view.End == old(i.view.Start) && i.view.Start == max(int64(old(i.view.Start)) - int64(span), int64(i.bounds.Start))
+//@   ensures  !i.closed && old(i.view.Start) == old(i.bounds.Start) ==> i.view.Start == i.bounds.Start && i.view.End == i.bounds.Start
+//@   ensures  !i.closed ==> wfIter(i)
+//@   modifies i, i.internal
+//@   loop 0 modifies &i.frame, &i.err, i.internal
+
+//@ # which bound of the distance approximation is used as the sample offset (selection table)
+//@ func pickSampleOffset(approx index.DistanceApproximation) (off int64)
+//@   requires 0 <= approx.Lower && approx.Lower <= approx.Upper
+//@   ensures  approx.Lower == approx.Upper || approx.StartExact ==> off == approx.Upper
+//@   ensures  approx.Lower != approx.Upper && !approx.StartExact && approx.EndExact ==> off == approx.Lower
+//@   ensures  approx.Lower != approx.Upper && !approx.StartExact && !approx.EndExact ==> off == (approx.Lower + approx.Upper) / 2
+//@   ensures  approx.Lower <= off && off <= approx.Upper
